@@ -2,6 +2,8 @@ package sim
 
 import (
 	"fmt"
+	"sort"
+	"strconv"
 )
 
 // parentSelector returns the selector the controller uses for children of parent
@@ -243,49 +245,133 @@ func c04Oracle(w *World, s *Setup) *Violation {
 			continue
 		}
 		bad := false
+		badWhy := ""
 		var hookArrival int
+		// With several live revisions the hook is asked once per revision, and what
+		// metacontroller goes on with is a mix: every child the latest revision lists, in
+		// the version of the revision the child is still assigned to; children that only
+		// an older revision lists are dropped. All of them are held against the selector
+		// of the latest parent. So an answer counts as rejected if the latest parent's
+		// selector is unusable, or if some child the latest answer lists fails it in every
+		// answer of this sync that lists it.
+		var hooks []*HookRec
 		for _, h := range sy.Hooks {
-			if h.Code != 200 || (h.Kind != "sync" && h.Kind != "finalize") {
+			if h.Code == 200 && (h.Kind == "sync" || h.Kind == "finalize") {
+				hooks = append(hooks, h)
+			}
+		}
+		if len(hooks) == 0 {
+			continue
+		}
+		latest := hooks[0]
+		if len(hooks) > 1 {
+			// the latest parent is the one sent as the server issued it
+			latest = nil
+			for _, h := range hooks {
+				po := getMap(h.Req, "parent")
+				rv, _ := strconv.ParseInt(mstr(po, "resourceVersion"), 10, 64)
+				if raw := w.Store.VersionAt(s.Cfg.Parent, mstr(po, "namespace"), mstr(po, "name"), rv); raw != nil && jsonString(mustParse(raw)["spec"]) == jsonString(po["spec"]) {
+					latest = h
+				}
+			}
+			if latest == nil {
+				w.Probe("c04:latest-revision-call-not-identified")
 				continue
 			}
-			po := getMap(h.Req, "parent")
-			sel, ok := parentSelector(s.Cfg, po, false)
+		}
+		po := getMap(latest.Req, "parent")
+		sel, ok := parentSelector(s.Cfg, po, false)
+		type answer struct {
+			h       *HookRec
+			desired map[childID]Object
+		}
+		var answers []answer
+		for _, h := range hooks {
+			if h.Arrival > hookArrival {
+				hookArrival = h.Arrival
+			}
 			desired, _, err := desiredFromResponse(w, h.RespBody, "children", mstr(po, "namespace"))
 			if err != nil {
 				continue
 			}
-			if !ok && len(desired) >= 0 {
-				bad = true
+			answers = append(answers, answer{h, desired})
+		}
+		var latestDesired map[childID]Object
+		for _, a := range answers {
+			if a.h == latest {
+				latestDesired = a.desired
 			}
-			for _, d := range desired {
+		}
+		if latestDesired == nil {
+			continue // the latest answer itself is malformed: C13's subject
+		}
+		// (after taking its finalizer off, the sync goes on with the live parent the
+		// server returned; if somebody changed the selector meanwhile, that one counts)
+		reselected := false
+		for _, q := range sy.Reqs {
+			if q.Res == s.Cfg.Parent && q.Verb == "update" && q.Sub == "" && q.Post != nil && q.Code == 200 {
+				if jsonString(getPath(mustParse(q.Post), "spec", "selector")) != jsonString(getPath(po, "spec", "selector")) {
+					reselected = true
+				}
+			}
+		}
+		if reselected {
+			w.Probe("c04:selector-changed-under-the-sync")
+			continue
+		}
+		if !ok {
+			bad = true
+			badWhy = fmt.Sprintf("the selector of the parent sent at step %d is invalid: %s", latest.ParkStep, jsonString(getPath(po, "spec", "selector")))
+		}
+		ids := make([]childID, 0, len(latestDesired))
+		for id := range latestDesired {
+			ids = append(ids, id)
+		}
+		sort.Slice(ids, func(i, j int) bool { return ids[i].String() < ids[j].String() })
+		for _, id := range ids {
+			if !ok {
+				break
+			}
+			everyVersionFails := true
+			var labelsSeen []string
+			for _, a := range answers {
+				d, listed := a.desired[id]
+				if !listed {
+					continue
+				}
 				l := labelsOf(d)
 				if s.Cfg.GenerateSelector {
 					if _, has := l["controller-uid"]; !has {
 						l["controller-uid"] = mstr(po, "uid")
 					}
 				}
-				if ok && !selectorMatches(sel, l) {
-					bad = true
+				labelsSeen = append(labelsSeen, fmt.Sprint(l))
+				if selectorMatches(sel, l) {
+					everyVersionFails = false
 				}
 			}
-			if bad && hookArrival == 0 {
-				hookArrival = h.Arrival
+			if everyVersionFails {
+				bad = true
+				badWhy = fmt.Sprintf("hook call(s) parked at step %d: child %s has labels %v in every answer that lists it, the selector of the latest parent is %s", latest.ParkStep, id.name, labelsSeen, jsonString(sel))
+			} else if len(answers) > 1 {
+				w.Probe("c04:child-label-check-over-several-revisions")
 			}
 		}
 		if !bad {
 			continue
 		}
+		w.Probe("c04:answer-that-must-be-rejected")
 		for _, q := range sy.Reqs {
 			if q.Arrival > hookArrival && q.IsWrite() && q.Res != nil && s.Cfg.Rule(q.Res) != nil && q.Fault != "cancelled" && q.Fault != "crashed" {
 				if v := report(&Violation{Prop: "C04", Class: "write-despite-selector-mismatch", Sig: s.Sig, Step: q.Step,
-					Detail: fmt.Sprintf("%s sent in a sync whose hook response contains a child that does not satisfy the parent's selector", q.Short())}); v != nil {
+					Detail: fmt.Sprintf("%s sent in a sync whose hook response contains a child that does not satisfy the parent's selector (%s)", q.Short(), badWhy)}); v != nil {
 					return v
 				}
 			}
 		}
 		if sy.EndStep != 0 && len(sy.Errs) == 0 {
 			if v := report(&Violation{Prop: "C04", Class: "selector-mismatch-not-reported", Sig: s.Sig, Step: sy.EndStep,
-				Detail: "a hook response with a child that does not satisfy the parent's selector was accepted without an error"}); v != nil {
+				Detail: "a hook response with a child that does not satisfy the parent's selector was accepted without an error (" + badWhy + ")"}); v != nil {
 				return v
 			}
 		}
@@ -332,6 +418,10 @@ func C04Scenario() *Scenario {
 		case 4:
 			s.TP.BadLabel = true
 			w.Cfg["variant"] = "bad-label"
+		case 3:
+			// the hook starts answering with non-matching labels only later, for
+			// children that exist and are claimed by then
+			w.Cfg["variant"] = "bad-label-later"
 		case 5:
 			// a parent whose selector is empty
 			p := s.Parents[0]
@@ -355,6 +445,14 @@ func C04Scenario() *Scenario {
 			ops = append(ops, s.Reselect(b)...)
 			ops = append(ops, s.ParentReplace(b)...)
 			ops = append(ops, GCOps(w)...)
+			if variant == 3 && !s.TP.BadLabel && w.step > 60 {
+				ops = append(ops, EnvOp{"hook-turns-to-bad-labels", func(w *World) {
+					s.TP.BadLabel = true
+					for _, p := range s.Parents {
+						EditObject(w, p.Res, p.NS, p.Name, "user", func(o Object) { setPath(o, "1", "metadata", "annotations", "poke") })
+					}
+				}})
+			}
 			return ops
 		}
 		pol := &Policy{Name: "adversarial", Shuffle: true, HoldWatch: 150 * t.Pick(5, "hold"), EnvProb: 120, AdvanceProb: 20}
